@@ -1,6 +1,5 @@
 //! op_*: operations engine V cannot take (raw-pointer walks that edit the list while walking it).
 use super::common::*;
-use super::sub::{state_q3, state_t};
 use super::*;
 
 // ---- clear: everything gone, size 0, cache usable --------------------------------------------------
@@ -78,9 +77,9 @@ fn t_op_retain() { body_retain(state_t(3)); }
 //      no shared nodes (C14) -------------------------------------------------------------------------
 fn body_clone(c: LruCache<u8, SV, BH>) {
     let o = order(&c);
-    let fp = super::frame::fingerprint(&c);
+    let fp = fingerprint(&c);
     let d = c.clone();
-    assert!(super::frame::fingerprint(&c) == fp, "clone() wrote to the source");
+    assert!(fingerprint(&c) == fp, "clone() wrote to the source");
     coherent(&c);
     coherent(&d);
     exact(&d);
@@ -128,14 +127,14 @@ fn diverge(x: &mut LruCache<u8, SV, BH>, which: u8) {
 }
 fn body_clone_diverge(mut c: LruCache<u8, SV, BH>, which: u8, side: bool) {
     let mut d = c.clone();
-    let fc = super::frame::fingerprint(&c);
-    let fd = super::frame::fingerprint(&d);
+    let fc = fingerprint(&c);
+    let fd = fingerprint(&d);
     if side {
         diverge(&mut d, which);
-        assert!(super::frame::fingerprint(&c) == fc, "operation on the clone changed the source");
+        assert!(fingerprint(&c) == fc, "operation on the clone changed the source");
     } else {
         diverge(&mut c, which);
-        assert!(super::frame::fingerprint(&d) == fd, "operation on the source changed the clone");
+        assert!(fingerprint(&d) == fd, "operation on the source changed the clone");
     }
     coherent(&c);
     coherent(&d);
